@@ -48,12 +48,27 @@ theorem readUntil_exact (pat : Bytes) : ∀ (pre rest : Bytes),
     simp only [List.cons_append, readUntil, h0, Bool.false_eq_true, if_false]
     rw [ih rest (fun i hi => by have := h (i + 1) (by simp; omega); simpa using this)]
 
-/-- the empty file input (no filename, no content) is "no file": `Option<File>` is `None`, `Vec<File>` is empty, `File` is a shape mismatch -/
-theorem empty_file_input (name : Bytes) (mt : Bytes) (rest : List Part) :
-    next (rest ++ [.file name ⟨[], mt, []⟩]) = some (name, .files [], rest) ∧
+/-- the unselected file input (no filename, no content) is "no file": alone under its name it yields no file — `Option<File>` is `None`, `Vec<File>` is empty,
+`File` is a shape mismatch -/
+theorem empty_file_input (name mt m t : Bytes) (rest : List Part) :
+    next (rest ++ [.text m t, .file name ⟨[], mt, []⟩]) = some (name, .files [], rest ++ [.text m t]) ∧ next [.file name ⟨[], mt, []⟩] = some (name, .files [], []) ∧
     decodeField .optFile (.files []) = some .none ∧ decodeField .files (.files []) = some (.seq []) ∧ decodeField .file (.files []) = none := by
-  refine ⟨?_, rfl, rfl, rfl⟩
-  simp [next]
+  refine ⟨?_, ?_, rfl, rfl, rfl⟩
+  · simp [next, unselected]
+  · simp [next, unselected]
+
+/-- ... and among the files of its name it is no file either, wherever it stands (two inputs of one name of which one was left empty, in either order;
+before fix fix 6d7aeee `[unselected, file]` yielded a phantom empty file and `[file, unselected]` made the whole form an error) -/
+theorem unselected_among_files (name mt m t : Bytes) (f : FileV) (hf : unselected f = false) (rest : List Part) :
+    next (rest ++ [.text m t, .file name ⟨[], mt, []⟩, .file name f]) = some (name, .files [f], rest ++ [.text m t]) ∧
+    next (rest ++ [.text m t, .file name f, .file name ⟨[], mt, []⟩]) = some (name, .files [f], rest ++ [.text m t]) ∧
+    decodeField .files (.files [f]) = some (.seq [f]) ∧ decodeField .optFile (.files [f]) = some (.some (.file f)) := by
+  have hf' : (!f.filename.isEmpty || !f.content.isEmpty) = true := by
+    simp only [unselected] at hf
+    cases h1 : f.filename.isEmpty <;> cases h2 : f.content.isEmpty <;> simp_all
+  refine ⟨?_, ?_, rfl, rfl⟩
+  · simp [next, unselected, List.filter, hf']
+  · simp [next, unselected, List.filter, hf']
 
 /-- a shape mismatch is an error, never a wrong value: two files never fit a single `File` or `Option<File>` field, text never fits a file field, a file never fits a text field -/
 theorem shape_mismatch (f g : FileV) (l : List FileV) (t : Bytes) :
